@@ -197,10 +197,14 @@ package file
 // writer's separator whatever characters the name contains (':' and ": "
 // included), provided the number has no ':' - i.e. at the LAST colon.
 // The slice after the separator is not proved safe for arbitrary garbage lines.
+// A line with an empty name ("    : 12", what save writes for an event whose stream
+// field is the empty string) is accepted: a cover clause - some path reaches the map
+// update with an empty name - fails when a check in front of it rejects such lines.
 
 //@ func (*offsetDB).parseStreams
 //@   assume-safe "offsetStr := line[pos+2:]" only lines produced by the writer are in scope
 //@   assert at "stream := pipeline.StreamName(line[4:pos])" forall k :: (0 <= k && 4 + k + 1 < len(line) && line[4+k] == ':' && line[4+k+1] == ' ' && nochr(line[4+k+1:], ':')) ==> pos == 4 + k
+//@   cover at "streams[stream] = offset" len(stream) == 0 && pos == 4 && len(line) >= 7 && line[5] == ' '
 //@   callee parseLine(c, p)
 //@     requires true
 
